@@ -297,13 +297,20 @@ Next ==
            good == IF IsBig(cfg) THEN BigExplains(cfg, st, e)
                    ELSE IF IsLying(cfg) THEN LyExplains(cfg, st, e)
                    ELSE IF IsFileCls(cfg) THEN FileExplains(cfg, st, e) ELSE Explains(cfg, st, e)
-       IN  /\ ok' = good
+           \* two readers over ONE operating-system file cursor (File::try_clone): the property speaks of one
+           \* reader and of how its underlying reader fragments reads, not of somebody else moving that reader's
+           \* position between two calls. The unchanged code happens to be immune (it seeks absolutely before
+           \* every read); a reader that keeps its buffer across fetches is not, and still has the property.
+           \* A miss in this class is therefore reported as DRIFT, not as a violation.
+           outside == cfg.cls = "shared" /\ ~good
+       IN  /\ ok' = (good \/ outside)
            /\ st' = IF ~good THEN st ELSE IF IsBig(cfg) THEN BigAfter(st, e)
                     ELSE IF IsLying(cfg) THEN LyAfter(cfg, st, e)
                     ELSE IF IsFileCls(cfg) THEN FileAfter(cfg, st, e) ELSE After(cfg, st, e)
            /\ IF good
               THEN (IF IsBig(cfg) \/ IsLying(cfg) \/ IsFileCls(cfg) \/ Exact(cfg, st, e) THEN TRUE
                     ELSE PrintT(<<"DRIFT", run, idx + 1>>))
+              ELSE IF outside THEN PrintT(<<"DRIFT", run, idx + 1>>)
               ELSE PrintT(<<"REJECT", run, idx + 1>>)
     /\ idx' = idx + 1
     /\ UNCHANGED run
